@@ -21,6 +21,7 @@
 From Coq Require Import List Arith Reals Lra.
 From OSV Require Import Num Order Core Predict RInst.
 From OSV.Lemmas Require C16L.
+From OSV Require GaussInst GaussFull.
 Import ListNotations.
 Open Scope R_scope.
 
@@ -280,8 +281,13 @@ Proof. intros. apply (C16_tm_threshold_scales Phi Phiinv 2 P gamma_default t1 t2
     mu = 0, sigma = 1/4, first team wins: t = kappa/c is 2 in the small unit and 1 in the
     large one, and v(0,2) = phi(2)/Phi(-2) > 2 > phi(1)/Phi(-1) = v(0,1) by the two Mills-ratio
     bounds, so the winner's posterior mu is not multiplied by 2.  Uses [gf_mono], [gf_tail8],
-    [gf_range], [gf_mills], [gf_mills_up].  (GaussFacts cannot be instantiated here, so there
-    is no closed Example of the premise.) *)
+    [gf_range], [gf_mills], [gf_mills_up].  (Non-vacuity: the premise is instantiated --
+    [GaussFull.GaussFacts_inst : GaussFacts GaussInst.PhiK GaussInst.PhiinvK] is proved without
+    hypothesis for the standard normal distribution function [GaussInst.PhiK] constructed in
+    GaussInst.v (Gaussian integral in GaussIntegral.v); [C16_tm_scale_refuted_inst] at the end
+    of the file is the refutation for that function, with no premise: nothing about the normal
+    distribution is assumed any more; the only remaining link is that CPython's NormalDist
+    computes this function.) *)
 Theorem C16_tm_scale_refuted : forall (Phi Phiinv : R -> R), GaussFacts Phi Phiinv ->
   exists (a : R) (P : params R) (trs : list (trating R)),
     0 < a /\ 0 < p_beta P /\ 0 < p_kappa P <= 1 /\ Forall (fun t => 0 < t_ss t) trs /\
@@ -295,3 +301,23 @@ Theorem C16_tm_scale_refuted : forall (Phi Phiinv : R -> R), GaussFacts Phi Phii
     <> map (map (fun r => set_mu_sigma r (a * r_mu r) (a * r_sigma r))) (compute (H := RNum Phi Phiinv) TMF P trs).
 Proof. exact C16L.tm_scale_refuted. Qed.
 Print Assumptions C16_tm_scale_refuted.
+
+(** ** The [GaussFacts] premise instantiated.
+
+    Each theorem above that takes [GaussFacts Phi Phiinv] as a premise is restated here for
+    the concrete standard normal distribution function [GaussInst.PhiK] and its inverse
+    [GaussInst.PhiinvK] (constructed in GaussInst.v), with no premise about the normal law:
+    [GaussFull.GaussFacts_inst : GaussFacts GaussInst.PhiK GaussInst.PhiinvK] is proved
+    outright (calculus facts in GaussCalc.v, the Gaussian integral in GaussIntegral.v). *)
+Theorem C16_tm_scale_refuted_inst : exists (a : R) (P : params R) (trs : list (trating R)),
+    0 < a /\ 0 < p_beta P /\ 0 < p_kappa P <= 1 /\ Forall (fun t => 0 < t_ss t) trs /\
+    (forall c n mu ss team rank, 0 < c -> 0 < ss ->
+       gamma_default (H := RNum GaussInst.PhiK GaussInst.PhiinvK) (a * c) n (a * mu) (a * a * ss)
+         (map (fun r => set_mu_sigma r (a * r_mu r) (a * r_sigma r)) team) rank
+       = p_gamma P c n mu ss team rank) /\
+    compute (H := RNum GaussInst.PhiK GaussInst.PhiinvK) TMF (mkParams (a * p_beta P) (p_kappa P) (gamma_default (H := RNum GaussInst.PhiK GaussInst.PhiinvK)))
+      (map (fun t => mkT (a * t_mu t) (a * a * t_ss t)
+                         (map (fun r => set_mu_sigma r (a * r_mu r) (a * r_sigma r)) (t_team t)) (t_rank t)) trs)
+    <> map (map (fun r => set_mu_sigma r (a * r_mu r) (a * r_sigma r))) (compute (H := RNum GaussInst.PhiK GaussInst.PhiinvK) TMF P trs).
+Proof. exact (C16_tm_scale_refuted GaussInst.PhiK GaussInst.PhiinvK GaussFull.GaussFacts_inst). Qed.
+Print Assumptions C16_tm_scale_refuted_inst.
